@@ -512,6 +512,45 @@ def any_fact(rx_, facts, func=None):
     return False
 
 
+def _per_arm_dom(rx_, site, f, fl, sl_):
+    """`let (earlier, later) = if a < b { (a, b) } else { (b, a) }; later.duration_since(earlier).unwrap()`: the operands of the site are locals
+    destructured from one tuple per arm.  The ordering requirement (written over the operand names) is then checked per arm, with the operand
+    names replaced by that arm's values, against the facts that hold where the arm builds its tuple; `<` is relaxed to `<=` (the reviewed
+    requirement of such sites is `earlier <= later`; the strictness of the recorded pattern came from the branch it was written on)."""
+    t_ = f.body.blocks[site.bb].term
+    if t_.k != "call":
+        return False
+    e_ = sl_.x.call_expr(site.bb, t_, sl_.x.depth)
+    names = []
+    for z_ in walk(e_):
+        if z_[0] == "var" and not z_[2] and z_[1] not in names:
+            names.append(z_[1])
+    arms = {}
+    for nm_ in names:
+        vd_ = value_defs(sl_, nm_)
+        if len(vd_) >= 2:
+            arms[nm_] = vd_
+    if len(arms) < 2:
+        return False
+    nbb = set(tuple(bb_ for _e, bb_ in v_) for v_ in arms.values())
+    if len(nbb) != 1:
+        return False
+    bbs = list(nbb)[0]
+    rel = re.sub(r" < ", " <=? ", rx_)
+    for i_, bb_ in enumerate(bbs):
+        pat = rel
+        for nm_, v_ in arms.items():
+            pat = re.sub(r"(?<![\w.])%s(?![\w~])" % re.escape(re.sub(r"~\d+$", "", nm_)), "\x00" + nm_ + "\x00", pat)
+        for nm_, v_ in arms.items():
+            pat = pat.replace("\x00" + nm_ + "\x00", re.escape(show(v_[i_][0], 120)))
+        try:
+            if not any_fact(pat, list(fl.facts_at(bb_)), f):
+                return False
+        except re.error:
+            return False
+    return True
+
+
 def check_requires(ctx, prog, reqs, site=None):
     probs = []
     for rq in reqs:
@@ -541,6 +580,8 @@ def check_requires(ctx, prog, reqs, site=None):
                 elif a_[0] == "variant" and any(z_[0] == "call" and z_[1].endswith("::next") for z_ in walk(a_[1])):
                     # an iteration of a loop: the iterator's origin (`Range{start: 0, end: ..}`, `into_iter(&self.x)`) is part of the fact
                     fs_.append((("variant", ("opaque", origin_text(sl_, a_[1])), a_[2]), t_))
+            if not any_fact(rq[1], fs_, f) and _per_arm_dom(rq[1], site, f, fl, sl_):
+                continue
             if not any_fact(rq[1], fs_, f):
                 probs.append("site no longer dominated by /%s/ (facts here: %s)" % (rq[1], "; ".join(show_fact(x) for x in fl.facts_at(site.bb))[:200]))
             continue
